@@ -39,6 +39,10 @@ Proof. intro H. apply post_bind with (R := fun _ => True); [intros ? ? ? ?; exac
 Lemma post_weaken {A} (m : M A) (Q R : A -> Prop) : post m Q -> (forall a, Q a -> R a) -> post m R.
 Proof. intros H HQ s a s' E. apply HQ. exact (H _ _ _ E). Qed.
 
+(* named float constants, so that property files need not import Floats *)
+Definition f_zero : float := 0%float.
+Definition f_one : float := 1%float.
+
 (* ====================================================================== *)
 (* 1. Scopes                                                              *)
 (* ====================================================================== *)
